@@ -223,9 +223,10 @@ def run_check(spec, tier, seed):
     # ---- 6. classify ----------------------------------------------------
     violations = []      # (replay_path, note)
     known_lines = {}
+    listed = {k['id'] for k in C.known_findings(prop)}   # known_findings.json is the authority
     for c, f in oracle_fail:
         kid = spec.known(c, f)
-        if kid is not None:
+        if kid is not None and kid in listed:
             known_lines.setdefault(kid, (c, f))
         else:
             violations.append((c, f))
